@@ -50,7 +50,14 @@ func genString(t *rapid.T, label string) string {
 
 func isReserved(s string) bool { return s == "true" || s == "false" || s == "null" }
 
+// nearWords: names that are almost, but not, one of the words the value syntax gives a meaning to
+// (legal enum values all of them)
+var nearWords = []string{"TRUE", "True", "tRUE", "FALSE", "False", "NULL", "Null", "nULL", "truee", "nul", "_true", "trues", "Infinity", "NaN", "e5", "E", "e", "x1e5"}
+
 func genSymbolName(t *rapid.T, label string) string {
+	if rapid.IntRange(0, 5).Draw(t, label+"near") == 0 {
+		return rapid.SampledFrom(nearWords).Draw(t, label+"nearWord")
+	}
 	s := nameGen.Draw(t, label)
 	if isReserved(s) {
 		s += "_"
